@@ -30,6 +30,46 @@ def limits():
     resource.setrlimit(resource.RLIMIT_AS, (MEM_LIMIT_KB * 1024, MEM_LIMIT_KB * 1024))
 
 
+def run_portfolio(cmds, timeout, wd):
+    t0 = time.time()
+    procs = []
+    for i, c in enumerate(cmds):
+        fo = open(os.path.join(wd, 'cbmc_out_%d.json' % i), 'wb')
+        d = os.path.join(wd, 'tmp_%d' % i)
+        os.makedirs(d, exist_ok=True)
+        env = dict(os.environ, TMPDIR=d)
+        procs.append((subprocess.Popen(c, stdout=fo, stderr=subprocess.DEVNULL, preexec_fn=limits, env=env, cwd=d), fo))
+    winner = None
+    try:
+        while time.time() - t0 < timeout:
+            for i, (pr, fo) in enumerate(procs):
+                rc = pr.poll()
+                if rc is not None and rc in (0, 10):
+                    winner = i
+                    break
+            if winner is not None:
+                break
+            if all(pr.poll() is not None for pr, _ in procs):
+                # all finished without a verdict: report the first
+                winner = 0
+                break
+            time.sleep(0.2)
+    finally:
+        for pr, fo in procs:
+            if pr.poll() is None:
+                pr.kill()
+            try:
+                pr.wait(timeout=10)
+            except Exception:
+                pass
+            fo.close()
+    dt = time.time() - t0
+    if winner is None:
+        return -9, '', 'TIMEOUT after %ss' % timeout, dt, None
+    out = open(os.path.join(wd, 'cbmc_out_%d.json' % winner), 'rb').read().decode('utf-8', 'replace')
+    return procs[winner][0].returncode, out, '', dt, winner
+
+
 def run(cmd, timeout=600, cwd=None, limit=True):
     t0 = time.time()
     try:
@@ -285,11 +325,21 @@ def run_group(bu, g, extra_defs=(), label=None):
     else:
         target = a_gb
     skip = set(g.attrs.get('skip_checks', '').split(','))
-    cb = ['cbmc', target] + [c for c in CBMC_CHECKS if c not in skip] + ['--json-ui', '--trace', '--object-bits', g.attrs.get('object_bits', '10')]
+    cb = ['cbmc', os.path.abspath(target)] + [c for c in CBMC_CHECKS if c not in skip] + ['--json-ui', '--trace', '--object-bits', g.attrs.get('object_bits', '10')]
+    if g.mode in ('plain', 'loops', 'unwind'):
+        cb += ['--nondet-static']     # ghost globals are universally quantified, not zero (dfcc does this itself)
     if g.unwind:
         cb += ['--unwind', g.unwind, '--unwinding-assertions']
-    cb += solver_flags(g)
-    rc, out, err, dt = run(cb, timeout=g.timeout)
+    if g.solver == 'sat' and os.environ.get('VERIF_PORTFOLIO', '1') == '1':
+        # portfolio: CBMC's built-in SAT solver and kissat race on the same problem; the first verdict wins
+        # (solver run times on these formulas vary by orders of magnitude between the two)
+        rc, out, err, dt, winner = run_portfolio([cb, cb + ['--external-sat-solver', 'kissat']], g.timeout, wd)
+        res['solver_used'] = ['minisat (built-in)', 'kissat'][winner] if winner is not None else None
+        if winner == 1:
+            cb = cb + ['--external-sat-solver', 'kissat']
+    else:
+        cb += solver_flags(g)
+        rc, out, err, dt = run(cb, timeout=g.timeout)
     res['cmds'].append(' '.join(['cbmc', os.path.basename(target)] + cb[2:]))
     res['cbmc_seconds'] = dt
     res['seconds'] = time.time() - t0
